@@ -27,10 +27,179 @@ entries! {
         }
         params(&s, pout);
     }
+    // C15: set a stream parameter on an arbitrary state, read both back, then produce one block
+    fn h_c15_setget(key: *const [u8; 32], nonce: *const [u8; 8], ctr0: u64, param: u32, value: u64, drounds: u32, out: *mut [u8; 64], pout: *mut [u8; 16]) {
+        let mut s = mk(key, nonce, ctr0);
+        s.set_stream_param(param, value);
+        params(&s, pout);
+        s.refill(drounds, &mut *out);
+    }
+    // C15: stream equality predicates on two arbitrary states: bit0 = stream32_eq, bit1 = stream64_eq
+    fn h_c15_eq(key1: *const [u8; 32], nonce1: *const [u8; 8], ctr1: u64, key2: *const [u8; 32], nonce2: *const [u8; 8], ctr2: u64) -> u32 {
+        let a = mk(key1, nonce1, ctr1);
+        let b = mk(key2, nonce2, ctr2);
+        (a.stream32_eq(&b) as u32) | ((a.stream64_eq(&b) as u32) << 1)
+    }
     // C14: one single-block refill
     fn h_c14_refill1(key: *const [u8; 32], nonce: *const [u8; 8], ctr: u64, drounds: u32, out: *mut [u8; 64], pout: *mut [u8; 16]) {
         let mut s = mk(key, nonce, ctr);
         s.refill(drounds, &mut *out);
         params(&s, pout);
+    }
+}
+
+// ------------------------------------------------------------------------------------------------
+// RustCrypto stream-cipher API (C01, C02, C11)
+use cipher::{NewCipher, StreamCipher, StreamCipherSeek};
+use c2_chacha::{ChaCha12, ChaCha20, ChaCha8, Ietf, XChaCha12, XChaCha20, XChaCha8};
+use cipher::generic_array::GenericArray;
+
+/// new -> try_seek(pos) -> try_apply_keystream(data[..len]); returns 0 ok, 1 seek error, 2 apply error
+macro_rules! seek_apply {
+    ($t:ty, $key:expr, $nonce:expr, $pos:expr, $data:expr, $len:expr) => {{
+        let mut c = <$t>::new(GenericArray::from_slice(&*$key), GenericArray::from_slice(&*$nonce));
+        if c.try_seek($pos).is_err() {
+            1u32
+        } else {
+            let d = core::slice::from_raw_parts_mut($data, $len);
+            if c.try_apply_keystream(d).is_err() { 2u32 } else { 0u32 }
+        }
+    }};
+}
+
+pub mod api {
+    use super::*;
+    entries! {
+        fn h_c01_ietf(key: *const [u8; 32], nonce: *const [u8; 12], pos: u64, data: *mut u8, len: usize) -> u32 { seek_apply!(Ietf, key, nonce, pos, data, len) }
+        fn h_c01_chacha8(key: *const [u8; 32], nonce: *const [u8; 8], pos: u64, data: *mut u8, len: usize) -> u32 { seek_apply!(ChaCha8, key, nonce, pos, data, len) }
+        fn h_c01_chacha12(key: *const [u8; 32], nonce: *const [u8; 8], pos: u64, data: *mut u8, len: usize) -> u32 { seek_apply!(ChaCha12, key, nonce, pos, data, len) }
+        fn h_c01_chacha20(key: *const [u8; 32], nonce: *const [u8; 8], pos: u64, data: *mut u8, len: usize) -> u32 { seek_apply!(ChaCha20, key, nonce, pos, data, len) }
+        fn h_c01_xchacha8(key: *const [u8; 32], nonce: *const [u8; 24], pos: u64, data: *mut u8, len: usize) -> u32 { seek_apply!(XChaCha8, key, nonce, pos, data, len) }
+        fn h_c01_xchacha12(key: *const [u8; 32], nonce: *const [u8; 24], pos: u64, data: *mut u8, len: usize) -> u32 { seek_apply!(XChaCha12, key, nonce, pos, data, len) }
+        fn h_c01_xchacha20(key: *const [u8; 32], nonce: *const [u8; 24], pos: u64, data: *mut u8, len: usize) -> u32 { seek_apply!(XChaCha20, key, nonce, pos, data, len) }
+    }
+}
+
+// ------------------------------------------------------------------------------------------------
+// One step of the buffered stream-cipher state machine from an ARBITRARY state (C02, C11).
+// `ChaChaAny.state: Buffer` and all `Buffer` fields are public, so an arbitrary buffered state is built
+// through the public type aliases; the inner `ChaCha` is set through the public stream parameters.
+// post layout: p0'[8] p1'[8] out'[64] have'[1] len'[8] fresh'[1] key_unchanged[1]
+pub const POST: usize = 8 + 8 + 64 + 1 + 8 + 1 + 1;
+
+macro_rules! load_state {
+    ($t:ty, $nb:expr, $key:expr, $p0:expr, $p1:expr, $out_in:expr, $have:expr, $len:expr, $fresh:expr) => {{
+        let nonce = [0u8; $nb];
+        let mut c = <$t>::new(GenericArray::from_slice(&*$key), GenericArray::from_slice(&nonce));
+        // for the X variants `new` derives a subkey; the step starts from an arbitrary key instead
+        c.state.state = ChaCha::new(&*$key, &[0u8; 8]);
+        c.state.state.set_stream_param(0, $p0);
+        c.state.state.set_stream_param(1, $p1);
+        c.state.out = *$out_in;
+        c.state.have = $have as i8;
+        c.state.len = $len;
+        c.state.fresh = $fresh != 0;
+        c
+    }};
+}
+macro_rules! store_state {
+    ($c:expr, $key:expr, $post:expr) => {{
+        let p = &mut *$post;
+        let p0 = $c.state.state.get_stream_param(0);
+        let p1 = $c.state.state.get_stream_param(1);
+        p[0..8].copy_from_slice(&p0.to_le_bytes());
+        p[8..16].copy_from_slice(&p1.to_le_bytes());
+        p[16..80].copy_from_slice(&$c.state.out);
+        p[80] = $c.state.have as u8;
+        p[81..89].copy_from_slice(&$c.state.len.to_le_bytes());
+        p[89] = $c.state.fresh as u8;
+        let mut e = ChaCha::new(&*$key, &[0u8; 8]);
+        e.set_stream_param(0, p0);
+        e.set_stream_param(1, p1);
+        p[90] = ($c.state.state == e) as u8;
+    }};
+}
+
+macro_rules! step_entries {
+    ($modname:ident, $t:ty, $nb:expr, $apply:ident, $seek_u8:ident, $seek_u16:ident, $seek_u32:ident, $seek_u64:ident, $seek_u128:ident, $seek_usize:ident, $seek_i32:ident, $pos:ident) => {
+        pub mod $modname {
+            use super::*;
+            entries! {
+                fn $apply(key: *const [u8; 32], p0: u64, p1: u64, out_in: *const [u8; 64], have: u8, len: u64, fresh: u8, data: *mut u8, n: usize, post: *mut [u8; 91]) -> u32 {
+                    let mut c = load_state!($t, $nb, key, p0, p1, out_in, have, len, fresh);
+                    let r = c.try_apply_keystream(core::slice::from_raw_parts_mut(data, n));
+                    store_state!(c, key, post);
+                    if r.is_err() { 2 } else { 0 }
+                }
+                fn $seek_u8(key: *const [u8; 32], p0: u64, p1: u64, out_in: *const [u8; 64], have: u8, len: u64, fresh: u8, pos: u8, post: *mut [u8; 91]) -> u32 {
+                    let mut c = load_state!($t, $nb, key, p0, p1, out_in, have, len, fresh);
+                    let r = c.try_seek(pos);
+                    store_state!(c, key, post);
+                    if r.is_err() { 1 } else { 0 }
+                }
+                fn $seek_u16(key: *const [u8; 32], p0: u64, p1: u64, out_in: *const [u8; 64], have: u8, len: u64, fresh: u8, pos: u16, post: *mut [u8; 91]) -> u32 {
+                    let mut c = load_state!($t, $nb, key, p0, p1, out_in, have, len, fresh);
+                    let r = c.try_seek(pos);
+                    store_state!(c, key, post);
+                    if r.is_err() { 1 } else { 0 }
+                }
+                fn $seek_u32(key: *const [u8; 32], p0: u64, p1: u64, out_in: *const [u8; 64], have: u8, len: u64, fresh: u8, pos: u32, post: *mut [u8; 91]) -> u32 {
+                    let mut c = load_state!($t, $nb, key, p0, p1, out_in, have, len, fresh);
+                    let r = c.try_seek(pos);
+                    store_state!(c, key, post);
+                    if r.is_err() { 1 } else { 0 }
+                }
+                fn $seek_u64(key: *const [u8; 32], p0: u64, p1: u64, out_in: *const [u8; 64], have: u8, len: u64, fresh: u8, pos: u64, post: *mut [u8; 91]) -> u32 {
+                    let mut c = load_state!($t, $nb, key, p0, p1, out_in, have, len, fresh);
+                    let r = c.try_seek(pos);
+                    store_state!(c, key, post);
+                    if r.is_err() { 1 } else { 0 }
+                }
+                fn $seek_u128(key: *const [u8; 32], p0: u64, p1: u64, out_in: *const [u8; 64], have: u8, len: u64, fresh: u8, pos_lo: u64, pos_hi: u64, post: *mut [u8; 91]) -> u32 {
+                    let mut c = load_state!($t, $nb, key, p0, p1, out_in, have, len, fresh);
+                    let r = c.try_seek(((pos_hi as u128) << 64) | pos_lo as u128);
+                    store_state!(c, key, post);
+                    if r.is_err() { 1 } else { 0 }
+                }
+                fn $seek_usize(key: *const [u8; 32], p0: u64, p1: u64, out_in: *const [u8; 64], have: u8, len: u64, fresh: u8, pos: usize, post: *mut [u8; 91]) -> u32 {
+                    let mut c = load_state!($t, $nb, key, p0, p1, out_in, have, len, fresh);
+                    let r = c.try_seek(pos);
+                    store_state!(c, key, post);
+                    if r.is_err() { 1 } else { 0 }
+                }
+                fn $seek_i32(key: *const [u8; 32], p0: u64, p1: u64, out_in: *const [u8; 64], have: u8, len: u64, fresh: u8, pos: i32, post: *mut [u8; 91]) -> u32 {
+                    let mut c = load_state!($t, $nb, key, p0, p1, out_in, have, len, fresh);
+                    let r = c.try_seek(pos);
+                    store_state!(c, key, post);
+                    if r.is_err() { 1 } else { 0 }
+                }
+                fn $pos(key: *const [u8; 32], p0: u64, p1: u64, out_in: *const [u8; 64], have: u8, len: u64, fresh: u8, pos_out: *mut [u8; 8]) -> u32 {
+                    let c = load_state!($t, $nb, key, p0, p1, out_in, have, len, fresh);
+                    match c.try_current_pos::<u64>() {
+                        Ok(p) => { *pos_out = p.to_le_bytes(); 0 }
+                        Err(_) => 1,
+                    }
+                }
+            }
+        }
+    };
+}
+step_entries!(step20, ChaCha20, 8, h_step_apply_chacha20, h_step_seek_u8_chacha20, h_step_seek_u16_chacha20, h_step_seek_u32_chacha20, h_step_seek_u64_chacha20, h_step_seek_u128_chacha20, h_step_seek_usize_chacha20, h_step_seek_i32_chacha20, h_step_pos_chacha20);
+step_entries!(stepietf, Ietf, 12, h_step_apply_ietf, h_step_seek_u8_ietf, h_step_seek_u16_ietf, h_step_seek_u32_ietf, h_step_seek_u64_ietf, h_step_seek_u128_ietf, h_step_seek_usize_ietf, h_step_seek_i32_ietf, h_step_pos_ietf);
+step_entries!(stepx8, XChaCha8, 24, h_step_apply_xchacha8, h_step_seek_u8_xchacha8, h_step_seek_u16_xchacha8, h_step_seek_u32_xchacha8, h_step_seek_u64_xchacha8, h_step_seek_u128_xchacha8, h_step_seek_usize_xchacha8, h_step_seek_i32_xchacha8, h_step_pos_xchacha8);
+
+/// state right after the real constructor (C02 obligation 1: Inv(new) and P = 0)
+macro_rules! new_entry {
+    ($t:ty, $key:expr, $nonce:expr, $post:expr) => {{
+        let c = <$t>::new(GenericArray::from_slice(&*$key), GenericArray::from_slice(&*$nonce));
+        store_state!(c, $key, $post);
+    }};
+}
+pub mod newstate {
+    use super::*;
+    entries! {
+        fn h_new_chacha20(key: *const [u8; 32], nonce: *const [u8; 8], post: *mut [u8; 91]) { new_entry!(ChaCha20, key, nonce, post) }
+        fn h_new_ietf(key: *const [u8; 32], nonce: *const [u8; 12], post: *mut [u8; 91]) { new_entry!(Ietf, key, nonce, post) }
+        fn h_new_xchacha8(key: *const [u8; 32], nonce: *const [u8; 24], post: *mut [u8; 91]) { new_entry!(XChaCha8, key, nonce, post) }
     }
 }
